@@ -262,6 +262,10 @@ func checkC20(c *Ctx) (int, error) {
 				add(set, DataSpec{Class: "period", Seed: rng.Int63n(1 << 30), Len: 1 << 20, Period: p}, false)
 			}
 		}
+		// the same with periods spelled with two or three byte values
+		for _, p := range []int{3, 16, 33, 48, 63, 64} {
+			add(set, DataSpec{Class: "lowperiod", Seed: rng.Int63n(1 << 30), Len: []int{100000, 1 << 20}[p%2], Period: p}, false)
+		}
 	}
 	c.ev.Rule = "accelerated settings (levels -2,-1,1,2 x 32K/4K window) x data classes {uniform, flattest histogram, Fibonacci-skewed, token-dense, sparse, 8-letter, one value just over 1/2 resp. 1/4 of the input} x sizes {0,1,2,100,4096,65535..65537,131072,200000,262144 (thorough: up to 3 MiB)}, and periods 1..64 x {65536, 100000 (thorough: 1 MiB)} for levels 1,2,-1, one or several Writes then Close, at every acceleration level; distinct by (setting, class, size, period)"
 	for _, cs := range spread(cases) {
